@@ -121,6 +121,7 @@ def parseOp (ts : List String) : Option Op :=
   | ["setv", ps, qs] => do pure (.setV (← parsePathP ps) (← parsePathP qs))
   | ["app", ps, qs] => do pure (.app (← parsePathP ps) (← parsePathP qs))
   | "appl" :: ps :: lit => do pure (.appLit (← parsePathP ps) (← parseLit lit))
+  | ["setcs", ps, qs, n] => do pure (.setCs (← parsePathP ps) (← parsePathP qs) (← n.toNat?))
   | ["setsub", ps, n] => do pure (.setSub (← parsePathP ps) (← n.toNat?))
   | ["resize", ps, n] => do pure (.resize (← parsePathP ps) (← n.toNat?))
   | ["remat", ps, i, n] => do pure (.removeAt (← parsePathP ps) (← i.toInt?) (← n.toInt?))
@@ -143,7 +144,7 @@ def parseOp (ts : List String) : Option Op :=
   | _ => none
 
 def isMutName (s : String) : Bool :=
-  ["set", "setv", "setsub", "app", "appl", "resize", "remat", "rem", "clear", "ext", "clone", "copy", "drop", "ctor"].contains s
+  ["set", "setv", "setsub", "setcs", "app", "appl", "resize", "remat", "rem", "clear", "ext", "clone", "copy", "drop", "ctor"].contains s
 
 def cgetP (σ : State) (p : Nat × List Step) : Except Err V := cget σ { root := p.1, steps := p.2 }
 
@@ -288,9 +289,7 @@ def step (σ : State) (ts0 : List String) : State × String :=
           | some d => pure (b01 (numOf v == some d))
           | none => throw .badarg
         | ["f", m, e] => match parseDy m e with
-          | some d => match v with
-            | .int i => pure (b01 (Dy.ofIntF i == d))      -- `_i == other`: the int is converted to float
-            | _ => pure (b01 (numOf v == some d))
+          | some d => pure (b01 (numOf v == some d))      -- also for an INT: compared as doubles (commit cda9080)
           | none => throw .badarg
         | ["b", x] => pure (b01 (v == V.bool (x == "1")))
         | [c, x] =>
